@@ -229,6 +229,8 @@ def run(rep, tier):
         rep.call(saturate, rep, prog, "C06.saturate")
         rep.call(simd_rules.lane_bypass, rep, prog, "C06.lane-bypass")
         rep.call(rounding.round_div, rep, prog, "C06.round-div")
+        from ..engines import type_tables
+        rep.call(type_tables.recip_table, rep, prog, "C06.recip-table")
         if cfg.startswith("x86"):
             rep.call(alphapair.provenance, rep, prog, "C06.provenance")
         if cfg.startswith("x86") or cfg == "wasm":
